@@ -1,5 +1,6 @@
 import IsoVerif.Driver.Core
 import IsoVerif.Model.Regions
+import IsoVerif.Model.RegionsEdge
 
 namespace IsoVerif.Driver.C05
 open Lean IsoVerif.Driver IsoVerif.Gen IsoVerif.Model.Regions
@@ -14,6 +15,25 @@ def jAln (j : Json) : Except String Aln := do
   else throw "alignment: 5 fields expected"
 
 def jAlns (j : Json) : Except String (List Aln) := jList jAln j
+
+/-- fetched record = `[start, stop | null, flags, mapq, rid]`; `null` = `reference_end is None` -/
+def jRawAln (j : Json) : Except String RawAln := do
+  let a ← j.getArr?
+  if a.size = 5 then
+    let fl ← jNat a[2]!
+    pure { start := ← jInt a[0]!, stop := ← jOpt jInt a[1]!, secondary := fl % 2 == 1, supplementary := (fl / 2) % 2 == 1,
+           mapped := (fl / 4) % 2 == 0, mapq := ← jInt a[3]!, rid := ← jNat a[4]! }
+  else throw "record: 5 fields expected"
+
+/-- retained record for the BED printer = `[rid, chr, exons, blocks, multimapper]` -/
+def jBedRec (j : Json) : Except String BedRec := do
+  let a ← j.getArr?
+  if a.size = 5 then
+    pure { rid := ← jNat a[0]!, chr := ← jNat a[1]!, exons := ← jIvList a[2]!, blocks := ← jIvList a[3]!,
+           multi := ← jBool a[4]! }
+  else throw "bed record: 5 fields expected"
+
+def ofBedLine (l : Nat × Nat × List Iv) : Json := Json.arr #[ofNat l.1, ofNat l.2.1, ofIvList l.2.2]
 
 def jCov (j : Json) : Except String CovDict := jList jIv j
 
@@ -106,6 +126,16 @@ def ops : List (String × Handler) := [
       pure (ofForward (collect (← jMode (← arg j "mode")) (← jAlns (← arg j "alns"))))),
   ("collect_buggy", fun j => do
       pure (ofForward (collectBuggy (← jMode (← arg j "mode")) (← jAlns (← arg j "alns"))))),
+  ("collect_raw", fun j => do
+      pure (ofForward (collectRaw (← jMode (← arg j "mode")) (← jList jRawAln (← arg j "alns"))))),
+  ("collect_raw_orig", fun j => do
+      pure (ofForward (collectRawOrig (← jMode (← arg j "mode")) (← jList jRawAln (← arg j "alns"))))),
+  ("raw_stats", fun j => do
+      pure (ofStats (processStatsRaw (← jList jRawAln (← arg j "alns"))))),
+  ("bed_lines", fun j => do
+      pure (ofList ofBedLine (bedLines (← jList jBedRec (← arg j "recs"))))),
+  ("bed_lines_orig", fun j => do
+      pure (ofList ofBedLine (bedLinesOrig (← jList jBedRec (← arg j "recs"))))),
   ("passes", fun j => do
       pure (ofBool (passes (← jParams (← arg j "params")) (← jAln (← arg j "aln"))))),
   ("stat_key", fun j => do
